@@ -589,6 +589,44 @@ func genC10(r *Rng, tier string, emit func(Case)) {
 		e("blk", []string{"topo", "reverse", "ctor", "random"}[mode]+":shape"+itoa(shape), fa[0], fa[1], fa[2], fa[3], fmtTxs(blk))
 	}
 	e("blk", "empty", "00", "1", "0", "1", "-")
+	// chains in which every transaction spends two outputs of its parent: the shape on which the
+	// unrepaired scan was exponential (known_findings: fixed C08/C10 scan)
+	nc := 30
+	if tier == "thorough" {
+		nc = 600
+	}
+	for i := 0; i < nc; i++ {
+		g := &genCtx{r: r}
+		g.secret = append(g.secret, r.Bytes(20))
+		k := 3 + r.Intn(9)
+		if i == 0 {
+			k = 26 // 2^26 evaluations before fix e69b75a
+		}
+		txs := []*wire.MsgTx{}
+		for j := 0; j < k; j++ {
+			tx := wire.NewMsgTx(1)
+			for o := 0; o < 2+r.Intn(2); o++ {
+				tx.AddTxOut(wire.NewTxOut(int64(j*10+o), g.outScript(), wire.TokenData{}))
+			}
+			if j == 0 {
+				tx.AddTxIn(wire.NewTxIn(&wire.OutPoint{Hash: *mkHash(r.Bytes(32)), Index: 0}, g.sigScript()))
+			} else {
+				ph := txs[j-1-r.Intn(min(j, 2))].TxHash()
+				tx.AddTxIn(wire.NewTxIn(&wire.OutPoint{Hash: ph, Index: 0}, g.sigScript()))
+				tx.AddTxIn(wire.NewTxIn(&wire.OutPoint{Hash: ph, Index: 1}, g.sigScript()))
+			}
+			txs = append(txs, tx)
+		}
+		fa := seededFilter(g, txs)
+		if r.Bool() || i == 0 { // nearly saturated filter: everything matches
+			fa[0] = hx(bytesFF(len(unhx(fa[0]))))
+		}
+		mode := r.Pick(1, 1, 2, 3)
+		if i == 0 {
+			mode = 1
+		}
+		e("blk", "chain2:"+[]string{"topo", "reverse", "ctor", "random"}[mode], fa[0], fa[1], fa[2], fa[3], fmtTxs(order(r, txs, mode)))
+	}
 }
 
 func bitsString(r *Rng, n int, mode int) string {
